@@ -143,7 +143,7 @@ def nullGrad (h : Heap) (x : Nat) : Heap := h.modT x ({ · with grad := none, vi
 
 theorem duplicate_no_children (fuel : Nat) (h : Heap) (live : List Nat) (bp t : Nat) (nodes : List Node)
     (hc : liveChildren h live t = []) : duplicate (fuel + 1) h live bp t nodes = .ok (h, nodes) := by
-  simp [duplicate, hc]
+  simp [duplicate, familyChildren, hc]
 
 theorem flatMap_nil_of_forall {α β} (l : List α) (f : α → List β) (hf : ∀ a ∈ l, f a = []) : l.flatMap f = [] := by
   induction l with
@@ -400,7 +400,7 @@ theorem dupFold_post (fuel : Nat) (live : List Nat) (bp t : Nat)
 
 theorem duplicate_eq_fold (fuel : Nat) (h : Heap) (live : List Nat) (bp t : Nat) (nodes : List Node) :
     duplicate (fuel + 1) h live bp t nodes =
-      (let children := liveChildren h live t
+      (let children := familyChildren h live t
        if children.isEmpty then .ok (h, nodes)
        else match children.foldlM (dupStep fuel live bp t) (h, nodes) with
         | .error e => .error e
@@ -424,13 +424,13 @@ theorem duplicate_post : ∀ (fuel : Nat) (live : List Nat) (bp : Nat) (h : Heap
     intro h t nodes h' nodes' hr
     rw [duplicate_eq_fold] at hr
     simp only at hr
-    by_cases hc : (liveChildren h live t).isEmpty = true
+    by_cases hc : (familyChildren h live t).isEmpty = true
     · simp only [hc, if_true] at hr
       injection hr with hr; injection hr with h1 h2
       subst h1; subst h2
       exact ⟨GradMono.refl _, fun n hn => Or.inl hn⟩
     · simp only [hc] at hr
-      cases hf : (liveChildren h live t).foldlM (dupStep fuel live bp t) (h, nodes) with
+      cases hf : (familyChildren h live t).foldlM (dupStep fuel live bp t) (h, nodes) with
       | error e => rw [hf] at hr; simp at hr
       | ok a =>
         obtain ⟨h2, nodes2⟩ := a
